@@ -18,6 +18,7 @@ from props import c01
 
 ID = 'C03'
 LEVEL = 'model_checking'
+PREFORK_WORLD = {}
 RULE = ('state = (stream, mode, addressing, option vector, representation, segment); every vector of the stated '
         'deviation levels x every enumerated segment; non-trivial = a 200 media segment that was decoded and '
         'compared with the stored bytes (distinct by vector, representation, source segment)')
